@@ -314,7 +314,8 @@ fn build(key: &str, rng: &mut Rng, opts: &Opts) -> Built {
             Built { w, addr: c, admin: addr_of(CREATOR), code_id: code, minter: Some(m), minter_kind: Some(MinterKind::Vending), start }
         }
         Target::Splits => {
-            let n = rng.range(2, 5);
+            // now and then more members than one page of `list_members` returns (default 10; sg-splits refuses groups above MAX_GROUP_SIZE)
+            let n = if rng.chance(1, 5) { 21 } else { rng.range(2, 5) };
             let members: Vec<Value> = (0..n).map(|i| json!({"addr": addr(40 + i), "weight": 1 + rng.below(5)})).collect();
             let g = w.instantiate(w.codes.cw4_group, &addr(WLADMIN), &json!({"admin": addr(WLADMIN), "members": members}), &[], None).expect("group");
             let code = w.codes.splits;
@@ -796,7 +797,8 @@ fn queries(target: Target) -> Vec<Value> {
             }
             v
         }
-        Target::Splits => vec![json!({"admin": {}}), json!({"group": {}}), json!({"list_members": {"start_after": null, "limit": null}}), json!({"member": {"address": addr(40)}})],
+        Target::Splits => vec![json!({"admin": {}}), json!({"group": {}}), json!({"list_members": {"start_after": null, "limit": null}}),
+            json!({"list_members": {"start_after": null, "limit": 30}}), json!({"list_members": {"start_after": addr(49), "limit": 30}}), json!({"member": {"address": addr(40)}}), json!({"member": {"address": addr(60)}})],
         Target::Wl(k) => {
             let mut v = vec![json!({"has_started": {}}), json!({"has_ended": {}}), json!({"is_active": {}}), json!({"config": {}}), json!({"admin_list": {}})];
             if k == WlKind::Merkle {
@@ -1840,7 +1842,7 @@ fn main() {
 
     // ---------------------------------------------------------------------------- 0c. cross-code: a REAL sg721-base instance
     // migrated to the sg721-updatable code (queries before are answered by sg721-base, after by sg721-updatable)
-    let n_x = ses.scale(6, 60);
+    let n_x = ses.scale(12, 90);
     for i in 0..n_x {
         for mode in ["app", "direct"] {
             let acts = match i % 3 {
@@ -1977,7 +1979,7 @@ fn main() {
     }
 
     // ---------------------------------------------------------------------------- 3. reachable states inside the App, route (ii) + histories
-    let n_app = ses.scale(30, 500);
+    let n_app = ses.scale(80, 500);
     for (key, class, _) in CONTRACTS.iter() {
         if *class == Class::Base721 {
             continue; // a method, not an entry point: nothing to call through the App
